@@ -224,7 +224,83 @@ func (in *Interp) formatString(format Val, args []Val, site ssa.CallInstruction)
 	if isConst && len(args) == 0 && !strings.Contains(f, "%") {
 		return kStr(f), nil
 	}
+	// A format made only of literal text and plain %s / %v verbs applied to
+	// strings IS concatenation: give it the key the + operator gives, so that
+	// Sprintf("%s/", p) and p + "/" are one symbol.
+	if isConst && len(wrapped) == 0 {
+		if v, ok := in.formatAsConcat(f, args); ok {
+			return v, nil
+		}
+	}
 	return SymStr{Key: "fmt(" + keyOf(format) + "|" + strings.Join(parts, ",") + ")", HostPath: hp}, wrapped
+}
+
+func (in *Interp) formatAsConcat(f string, args []Val) (Val, bool) {
+	var pieces []Val
+	lit := ""
+	ai := 0
+	for i := 0; i < len(f); i++ {
+		if f[i] != '%' {
+			lit += string(f[i])
+			continue
+		}
+		if i+1 >= len(f) {
+			return nil, false
+		}
+		switch f[i+1] {
+		case '%':
+			lit += "%"
+		case 's', 'v':
+			if ai >= len(args) {
+				return nil, false
+			}
+			a := args[ai]
+			ai++
+			if iv, ok := a.(Iface); ok {
+				a = iv.V
+			}
+			switch a.(type) {
+			case SymStr:
+			case Konst:
+				if _, isS := constStringVal(a.(Konst)); !isS {
+					return nil, false
+				}
+			default:
+				return nil, false
+			}
+			if lit != "" {
+				pieces = append(pieces, kStr(lit))
+				lit = ""
+			}
+			pieces = append(pieces, a)
+		default:
+			return nil, false
+		}
+		i++
+	}
+	if ai != len(args) {
+		return nil, false
+	}
+	if lit != "" {
+		pieces = append(pieces, kStr(lit))
+	}
+	if len(pieces) == 0 {
+		return kStr(""), true
+	}
+	acc := pieces[0]
+	for _, p := range pieces[1:] {
+		// the same construction as binop(ADD) on strings
+		if a, ok := acc.(Konst); ok {
+			if b, ok := p.(Konst); ok {
+				sa, _ := constStringVal(a)
+				sb, _ := constStringVal(b)
+				acc = kStr(sa + sb)
+				continue
+			}
+		}
+		acc = SymStr{Key: "(" + keyOf(acc) + "+" + keyOf(p) + ")", HostPath: hostPath(acc) || hostPath(p)}
+	}
+	return acc, true
 }
 
 func sliceArgs(in *Interp, v Val, site ssa.CallInstruction) []Val {
